@@ -1502,7 +1502,26 @@ func callMatches(callee, pat string) bool {
 	if strings.HasSuffix(callee, "."+pat) || strings.HasSuffix(callee, ")."+pat) {
 		return true
 	}
-	if strings.HasPrefix(pat, "*") && strings.Contains(callee, pat[1:]) {
+	if strings.HasPrefix(pat, "*") && !strings.Contains(pat[1:], "*") && strings.Contains(callee, pat[1:]) {
+		return true
+	}
+	if strings.Contains(pat, "*") && strings.Contains(strings.TrimPrefix(pat, "*"), "*") {
+		// general glob: the pieces between the stars occur in this order (anchored at an end without a star)
+		parts := strings.Split(pat, "*")
+		rest := callee
+		for i, p := range parts {
+			if p == "" {
+				continue
+			}
+			k := strings.Index(rest, p)
+			if k < 0 || (i == 0 && k != 0) {
+				return false
+			}
+			rest = rest[k+len(p):]
+		}
+		if last := parts[len(parts)-1]; last != "" && rest != "" {
+			return strings.HasSuffix(callee, last)
+		}
 		return true
 	}
 	return false
